@@ -24,6 +24,21 @@ Proof.
   - left. unfold sensitive_in_inventory. apply filter_In. split; [exact H|]. rewrite Hsh, E. reflexivity.
 Qed.
 
+(* the full statement: it holds for /repo since commit 6792a051a (before it, replaceVariables was filed under
+   the order-sensitive shape and this lemma did not check) *)
+Definition insensitive_b (s : site) : bool :=
+  match shape_of s with Some sh => is_insensitive sh | None => false end.
+
+Lemma inventory_insensitive_b : forallb insensitive_b inventory = true.
+Proof. vm_compute. reflexivity. Qed.
+
+Theorem all_map_ranges_order_insensitive :
+  forall s, In s inventory -> exists sh, shape_of s = Some sh /\ is_insensitive sh = true.
+Proof.
+  intros s H. pose proof inventory_insensitive_b as HA. rewrite forallb_forall in HA. specialize (HA s H).
+  unfold insensitive_b in HA. destruct (shape_of s) as [sh|]; [exists sh; split; [reflexivity | exact HA] | discriminate].
+Qed.
+
 (* no goroutine is started and no package-level variable is assigned outside init() in the inventoried
    packages: compilations in one process share only data that is written during package initialisation *)
 Theorem no_goroutines_no_global_writes : go_statement_sites = [] /\ global_write_sites = [].
